@@ -268,6 +268,19 @@ func (e *didEnv) doc(shape string, did string) *didtypes.DIDDocument {
 	case "D8": // one id shared by two methods holding the SAME key k1 (2019 type first, deprecated 2018 type second)
 		d = didtypes.NewDIDDocument(did, didtypes.WithVerificationMethods([]*didtypes.VerificationMethod{e.vm(did, 1, es256k), e.vm(did, 1, "Secp256k1VerificationKey2018")}),
 			didtypes.WithAuthentications([]didtypes.VerificationRelationship{ref(1)}))
+	case "D9": // vm[key1 = k1, key2 = a 65-byte (uncompressed-looking) key typed secp256k1] auth[ref key1, ref key2]:
+		// key2 passes stateless validation (base58) but is no usable key: a proof naming it can never verify
+		bad := e.vm(did, 2, es256k)
+		bad.PublicKeyBase58 = base58.Encode(append([]byte{0x04}, bytes.Repeat([]byte{0x11}, 64)...))
+		d = didtypes.NewDIDDocument(did, didtypes.WithVerificationMethods([]*didtypes.VerificationMethod{e.vm(did, 1, es256k), bad}),
+			didtypes.WithAuthentications([]didtypes.VerificationRelationship{ref(1), ref(2)}))
+	case "D10": // D1 whose top-level controller names the OTHER DID of the alphabet (the controller's keys never control this DID)
+		other := e.DIDs[0]
+		if did == other {
+			other = e.DIDs[1]
+		}
+		d = didtypes.NewDIDDocument(did, didtypes.WithVerificationMethods([]*didtypes.VerificationMethod{e.vm(did, 1, es256k)}),
+			didtypes.WithAuthentications([]didtypes.VerificationRelationship{ref(1)}), didtypes.WithController(other))
 	case "De": // empty id, dedicated authentication method for k1 whose id names `did`
 		d = didtypes.DIDDocument{Authentications: []didtypes.VerificationRelationship{didtypes.NewVerificationRelationshipDedicated(*e.vm(did, 1, es256k))}}
 	default:
@@ -298,6 +311,7 @@ func bulkDIDs(e *didEnv, n int) map[string]*didtypes.DIDDocumentWithSeq {
 
 type didVariant struct {
 	Bulk     int // genesis-injected filler DIDs
+	Tombs    int // every Tombs-th filler DID (in store order) is a tombstone
 	ID       string
 	Replays  bool // C04: Replay(i) ops
 	EmptyID  bool // C04/C05: create with an empty-id document
@@ -393,6 +407,22 @@ func didOps(e *didEnv, v didVariant) []explore.Op {
 		explore.Op{Name: "Create(did=caseVariant(d1),D1(d1),k1,via=R2)", Tx: func(w *world.World, m any) *world.TxSpec {
 			doc := e.doc("D1", d1)
 			return tx(R2, &didtypes.MsgCreateDIDRequest{Did: caseVariant(d1), Document: doc, VerificationMethodId: e.vmID(d1, 1), Signature: e.sign(doc, 0, 1), FromAddress: R2.Bech})
+		}},
+	)
+	// D9: a listed authentication method whose key material is unusable, named by a junk proof; D10: a document naming the other
+	// DID as its controller, and a proof made with the CONTROLLER's key under the controller's method id and sequence
+	ops = append(ops,
+		update(d1, d1, "D9", "D9", 1, 0, R1),
+		explore.Op{Name: "Update(d1,D1(d1),names=key2,junk-signature,via=R2)", Tx: func(w *world.World, m any) *world.TxSpec {
+			return tx(R2, &didtypes.MsgUpdateDIDRequest{Did: d1, Document: e.doc("D1", d1), VerificationMethodId: e.vmID(d1, 2), Signature: []byte{0x30, 0x01, 0x02}, FromAddress: R2.Bech})
+		}},
+		explore.Op{Name: "Deactivate(d1,names=key2,junk-signature,via=R2)", Tx: func(w *world.World, m any) *world.TxSpec {
+			return tx(R2, &didtypes.MsgDeactivateDIDRequest{Did: d1, VerificationMethodId: e.vmID(d1, 2), Signature: []byte{0x30, 0x01, 0x02}, FromAddress: R2.Bech})
+		}},
+		update(d1, d1, "D10", "D10", 1, 0, R1),
+		explore.Op{Name: "Update(d1,D5(d1),vm=d2#key1,k1,seq=seq(d2),via=R2)", Tx: func(w *world.World, m any) *world.TxSpec {
+			doc := e.doc("D5", d1)
+			return tx(R2, &didtypes.MsgUpdateDIDRequest{Did: d1, Document: doc, VerificationMethodId: e.vmID(d2, 1), Signature: e.sign(doc, seqOf(m, d2), 1), FromAddress: R2.Bech})
 		}},
 	)
 	// proofs that NAME a listed authentication key but are made with another key (or are junk): must never be accepted,
@@ -581,10 +611,21 @@ func didSystem(v didVariant) *explore.System {
 			m := newDidModel()
 			if v.Bulk > 0 {
 				fill := bulkDIDs(env, v.Bulk)
+				if v.Tombs > 0 {
+					for i, did := range sortedKeys(fill) {
+						if i%v.Tombs == v.Tombs-1 {
+							fill[did] = &didtypes.DIDDocumentWithSeq{Document: &didtypes.DIDDocument{}, Sequence: uint64(2 + i%3)}
+						}
+					}
+				}
 				opts.Mutate = func(gs map[string]json.RawMessage, cdc codec.Codec) {
 					gs["did"] = cdc.MustMarshalJSON(&didtypes.GenesisState{Documents: fill})
 				}
 				for did, d := range fill {
+					if d.Document.Id == "" {
+						m.Entries[did] = &didEntry{Tomb: true, Seq: d.Sequence}
+						continue
+					}
 					m.Entries[did] = &didEntry{Doc: d.Document, Seq: d.Sequence}
 				}
 			}
@@ -772,7 +813,7 @@ func idLabel(env *didEnv, id string) string {
 
 var didAssumptions = []string{
 	"alphabet: 2 DIDs, 3 secp256k1 DID keys, document shapes D1..D5 (+ empty-id / foreign-id documents where named), relayers R1/R2 that never own a DID key",
-	"duplicate verification-method ids occur in two shapes only: D7 (embedded authentication method sharing its id with a top-level method of another key: the embedded key controls) and D8 (the same key listed twice under one id)",
+	"document shapes D1-D10 (listed in the source): incl. an authentication method with unusable key material (D9) and a top-level controller naming the other DID (D10); duplicate verification-method ids occur in two shapes only: D7 (embedded authentication method sharing its id with a top-level method of another key: the embedded key controls) and D8 (the same key listed twice under one id)",
 	"reference verdict: entry state + independent resolution of authentication keys + secp256k1 verification over proto(DataWithSeq{proto(content), seq})",
 }
 
@@ -780,7 +821,7 @@ func C03(t Tier) int {
 	run := report.NewRun("C03", t.Name, "model_checking", "E1+E2")
 	sys := didSystem(didVariant{ID: "C03", Ctl: []string{"NB", "RS", "XI"}})
 	dl := deadline(t, 150*time.Second, 15*time.Minute)
-	bounds := []explore.Bounds{{Depth: 5, V: 1, Deadline: dl}}
+	bounds := []explore.Bounds{{Depth: 4, V: 1, Deadline: dl}, {Depth: 5, V: 1, Deadline: dl}}
 	if t.Thorough {
 		bounds = []explore.Bounds{{Depth: 5, V: 1, Deadline: dl}, {Depth: 5, V: 2, Deadline: dl}, {Depth: 6, V: 2, Deadline: dl}, {Depth: 7, V: 2, Deadline: dl}}
 	}
@@ -793,7 +834,7 @@ func C04(t Tier) int {
 	run := report.NewRun("C04", t.Name, "model_checking", "E1+E2")
 	sys := didSystem(didVariant{ID: "C04", Replays: true, EmptyID: true, Small: true, Ctl: []string{"NB", "RS", "XI"}})
 	dl := deadline(t, 150*time.Second, 15*time.Minute)
-	bounds := []explore.Bounds{{Depth: 5, V: 1, Deadline: dl}}
+	bounds := []explore.Bounds{{Depth: 4, V: 1, Deadline: dl}, {Depth: 5, V: 1, Deadline: dl}}
 	if t.Thorough {
 		bounds = []explore.Bounds{{Depth: 5, V: 1, Deadline: dl}, {Depth: 6, V: 1, Deadline: dl}, {Depth: 6, V: 2, Deadline: dl}, {Depth: 7, V: 2, Deadline: dl}}
 	}
@@ -806,7 +847,7 @@ func C05(t Tier) int {
 	run := report.NewRun("C05", t.Name, "model_checking", "E1+E2")
 	sys := didSystem(didVariant{ID: "C05", EmptyID: true, Ctl: []string{"NB", "RS", "XI"}})
 	dl := deadline(t, 150*time.Second, 15*time.Minute)
-	bounds := []explore.Bounds{{Depth: 4, V: 2, Deadline: dl}}
+	bounds := []explore.Bounds{{Depth: 3, V: 2, Deadline: dl}, {Depth: 4, V: 2, Deadline: dl}}
 	if t.Thorough {
 		bounds = []explore.Bounds{{Depth: 4, V: 2, Deadline: dl}, {Depth: 5, V: 2, Deadline: dl}, {Depth: 5, V: 3, Deadline: dl}, {Depth: 6, V: 3, Deadline: dl}}
 	}
@@ -814,7 +855,7 @@ func C05(t Tier) int {
 	// second initial state: 120 live DIDs already exist (more than one default page of any paginated listing), all sorting
 	// before d1/d2, so that a tombstone written now is the last entry of the store when genesis is exported
 	bulk := didSystem(didVariant{ID: "C05/bulk", Bulk: 120, Small: true, Ctl: []string{"XI", "RS"}})
-	RunGraph(run, bulk, []explore.Bounds{{Depth: 3, V: 1, Deadline: dl}}, 4)
+	RunGraph(run, bulk, []explore.Bounds{{Depth: 3, V: 1, Deadline: deadline(t, 45*time.Second, 4*time.Minute)}}, 4)
 	run.Assumptions = append(didAssumptions, "V>=2 places a restart and an export/import after every deactivation reachable within the depth bound",
 		"a second run starts from a genesis with 120 live DIDs and explores depth 2 + one export/import or restart")
 	return run.Finish()
@@ -824,12 +865,17 @@ func C11(t Tier) int {
 	run := report.NewRun("C11", t.Name, "model_checking", "E1+E2")
 	sys := didSystem(didVariant{ID: "C11", Mismatch: true, EmptyID: true, StrictID: true, Small: true, Ctl: []string{"NB", "XI"}})
 	dl := deadline(t, 150*time.Second, 15*time.Minute)
-	bounds := []explore.Bounds{{Depth: 5, V: 1, Deadline: dl}}
+	bounds := []explore.Bounds{{Depth: 4, V: 1, Deadline: dl}, {Depth: 5, V: 1, Deadline: dl}}
 	if t.Thorough {
 		bounds = []explore.Bounds{{Depth: 5, V: 1, Deadline: dl}, {Depth: 6, V: 1, Deadline: dl}, {Depth: 6, V: 2, Deadline: dl}, {Depth: 7, V: 2, Deadline: dl}}
 	}
 	RunGraph(run, sys, bounds, 6)
-	run.Assumptions = append(didAssumptions, "did field, document id and signed payload are chosen independently in the Create/Update/Exec/Replay(did:=other) entries")
+	// second initial state: a registry that already holds several tombstones between live DIDs (genesis), so that the
+	// listings / exports that walk the whole registry meet more than one empty-id entry
+	tombs := didSystem(didVariant{ID: "C11/tombstones", Bulk: 12, Tombs: 4, Mismatch: true, StrictID: true, Small: true, Ctl: []string{"XI", "NB"}})
+	RunGraph(run, tombs, []explore.Bounds{{Depth: 2, V: 1, Deadline: deadline(t, 45*time.Second, 4*time.Minute)}}, 4)
+	run.Assumptions = append(didAssumptions, "did field, document id and signed payload are chosen independently in the Create/Update/Exec/Replay(did:=other) entries",
+		"a second run starts from a genesis with 9 live DIDs and 3 tombstones interleaved in store order (depth 2 + one export/import)")
 	return run.Finish()
 }
 
